@@ -143,6 +143,12 @@ func (e *FnEnc) run() {
 			e.addModRef(env, c, e.modRefsFn)
 		}
 	}
+	// ghost initialisations are part of the entry state
+	for k, v := range e.cur {
+		if strings.HasPrefix(k, "GH.") {
+			e.initState[k] = v
+		}
+	}
 	// vacuity: the preconditions must be satisfiable
 	e.oblige(&Obligation{Name: "cover.requires", Kind: "cover", Clause: "requires satisfiable", Guard: "true", Goal: "false"})
 
@@ -416,6 +422,25 @@ func (e *FnEnc) loopModSet(li *loopInfo) map[string]bool {
 		}
 	}
 	if e.con != nil {
+		for _, b := range e.fn.Blocks {
+			if !li.blocks[b] {
+				continue
+			}
+			for _, in := range b.Instrs {
+				ci, ok := in.(ssa.CallInstruction)
+				if !ok {
+					continue
+				}
+				names := callNames(ci.Common())
+				for _, u := range e.con.CallUpdates {
+					if names[u.Callee] {
+						if hv, ok := e.ghosts[u.Name]; ok {
+							mod[hv.Name] = true
+						}
+					}
+				}
+			}
+		}
 		if lc := e.con.Loops[li.ordinal]; lc != nil {
 			for _, u := range lc.Updates {
 				if hv, ok := e.ghosts[u.Name]; ok {
@@ -438,7 +463,7 @@ func (e *FnEnc) loopModSet(li *loopInfo) map[string]bool {
 	}
 	if all {
 		for name := range e.heapVars {
-			if !strings.HasPrefix(name, "VIS.") && !strings.HasPrefix(name, "POS.") {
+			if !strings.HasPrefix(name, "VIS.") && !strings.HasPrefix(name, "POS.") && !strings.HasPrefix(name, "GH.") {
 				mod[name] = true
 			}
 		}
